@@ -8,7 +8,7 @@ V = os.path.dirname(os.path.dirname(os.path.abspath(__file__)))
 
 
 def sh(cmd, **kw):
-    return subprocess.run(cmd, shell=True, stdout=subprocess.PIPE, stderr=subprocess.STDOUT, text=True, errors='replace', **kw)
+    return subprocess.run(cmd, shell=True, executable='/bin/bash', stdout=subprocess.PIPE, stderr=subprocess.STDOUT, text=True, errors='replace', **kw)
 
 
 def main():
@@ -25,7 +25,7 @@ def main():
             diff = os.path.join(out, X + '.diff'); demo = os.path.join(out, X + '_demo.cpp')
             orig_wt = re.search(r'/tmp/mut/wt2?_\w+', ch['build']).group(0)
             build = ch['build'].replace(orig_wt, wt).replace(out + '/' + X + '_demo ', '/tmp/seed_demo_%s ' % prop)
-            build = re.sub(r'-o \S+', '-o /tmp/seed_demo_%s' % prop, build.split('  (')[0])
+            build = re.sub(r'-o \S+', '-o /tmp/seed_demo_%s' % prop, build.split('  (')[0].split('   #')[0])
             r = dict(summary=ch['summary'], needs=ch['needs'])
             sh('git -C %s checkout -- .' % wt)
             b0 = sh(build, cwd=out); run0 = sh('/tmp/seed_demo_%s' % prop, cwd=out, timeout=300)
